@@ -14,6 +14,10 @@ are fresh objects, so that no amoco object is shared between two places of a scr
               ["ltuh"] ["geuh"] ["rorh"] ["rolh"]                 (helper functions ltu() geu() ror() rol())
   structure   ["slice", lo, hi]  ["bit", i]  ["compose", n]  ["tst"]  ["zext", n]  ["sext", n]
               ["simp"]  ["simpb"]                                 (x.simplify() / x.simplify(bitslice=True) mid-script)
+  raw nodes   ["rawop", name]  ["rawuop", "neg"|"not"]  ["rawslc", pos, size]  ["rawcomp", n]
+              the class constructors op(sym,l,r) / uop(sym,r) / slc(x,pos,size) / comp(total) + c[a:b]=part alone,
+              WITHOUT the construction-time simplification of the operator API (amoco builds such nodes itself —
+              ltu(), slicer, ISA semantics — and the constructors are public); `name` is a binary instruction name.
 
 Final actions are applied by `run`: nothing / simplify with an option / eval under a valuation.
 """
@@ -34,6 +38,10 @@ BIN_PY = {
     "eq": operator.eq, "ne": operator.ne, "lt": operator.lt, "le": operator.le, "gt": operator.gt,
     "ge": operator.ge,
 }
+RAW_SYM = {"add": X.OP_ADD, "sub": X.OP_MIN, "mul": X.OP_MUL, "pow": X.OP_MUL2, "div": X.OP_DIV, "mod": X.OP_MOD,
+           "and": X.OP_AND, "or": X.OP_OR, "xor": X.OP_XOR, "shl": X.OP_LSL, "shr": X.OP_LSR, "asr": X.OP_ASR,
+           "eq": X.OP_EQ, "ne": X.OP_NEQ, "lt": X.OP_LT, "le": X.OP_LE, "gt": X.OP_GT, "ge": X.OP_GE,
+           "ltu": X.OP_LTU, "geu": X.OP_GEU, "ror": X.OP_ROR, "rol": X.OP_ROL}
 BIN_OPER = {"ltu": X.OP_LTU, "geu": X.OP_GEU, "ror": X.OP_ROR, "rol": X.OP_ROL}
 BIN_HELP = {"ltuh": X.ltu, "geuh": X.geu, "rorh": X.ror, "rolh": X.rol}
 SIGN_DEP = ("lt", "le", "gt", "ge", "pow", "div", "mod")   # reading depends on the declared signedness
@@ -124,6 +132,30 @@ def build(script, decl=None):
             st.append(st.pop().zeroextend(ins[1]))
         elif o == "sext":
             st.append(st.pop().signextend(ins[1]))
+        elif o == "rawop":
+            r = st.pop()
+            l = st.pop()
+            if ins[1] not in RAW_SYM:
+                raise ScriptError(ins[1])
+            if decl is not None:
+                decl.append((k, bool(l.sf), bool(r.sf), leaf_signs(l) | leaf_signs(r)))
+            st.append(op(RAW_SYM[ins[1]], l, r))
+        elif o == "rawuop":
+            x = st.pop()
+            st.append(uop({"neg": X.OP_MIN, "not": X.OP_NOT}[ins[1]], x))
+        elif o == "rawslc":
+            x = st.pop()
+            st.append(slc(x, ins[1], ins[2]))
+        elif o == "rawcomp":
+            n = ins[1]
+            parts = st[len(st) - n:]
+            del st[len(st) - n:]
+            c = comp(sum(p.size for p in parts))
+            pos = 0
+            for p in parts:
+                c[pos:pos + p.size] = p
+                pos += p.size
+            st.append(c)
         elif o == "simp":
             st.append(st.pop().simplify())
         elif o == "simpb":
